@@ -9,7 +9,7 @@ LEVEL = {
  'C01': 'Deciding step: order-chain oracle over every consumer stream / Slice snapshot of long concurrent runs, and porcupine linearizability of short histories against a sequential Buffer model whose cleaner may make any number of passes.',
  'C02': 'Deciding step: position model per consumer, porcupine on shared consumers, complete enumeration of operation sequences up to length 4 (quick) / 5 (thorough) against the model, and fault injection through a recording Consumer decorator for Range.',
  'C03': 'Deciding step: cleaner functions compared with a reference on a completely enumerated small family; sequential differential runs; an online monitor wrapped around the cleaner inside the library lock; porcupine with forced trims.',
- 'C04': 'Deciding step: bounded-progress monitor on the quiescent size (heartbeats, not wall-clock), with the lost-wake-up and forced-trim windows entered deliberately through hook gates.',
+ 'C04': 'Deciding step: bounded-progress monitor on the quiescent size (heartbeats, not wall-clock), with the lost-wake-up and forced-trim windows entered deliberately through hook gates and, for the cleaner call itself, through a pass-through Cleaner that holds one evaluation open.',
  'C05': 'Deciding step: every event set is fired at every placement around the waiter (before / after the miss / held between predicate and cond.Wait / parked); the call must return within the heartbeat bound with the right result class.',
  'C06': 'Deciding step: receipt table per message against each Send return value, must/must-not receive sets from stamps, and one global order derived from a sentinel subscriber.',
  'C07': 'Deciding step: every call bounded by heartbeats with goroutine dumps, recover around every call, final accounting and a post-scenario round trip; 40 hold-until window combinations are driven through hook callbacks.',
@@ -21,7 +21,7 @@ LEVEL = {
  'C13': 'Deciding step: porcupine linearizability against a sequential Channel model, conservation against the source, a completely enumerated sequential family, and Close-vs-Get micro-trials.',
  'C14': 'Deciding step: online counters (exactly once, running <= largest count requested), bounded progress and bounded bypass for starvation, invariant sampling through VerifState.',
  'C15': 'Deciding step: receipts per publish against an independent eligibility table, over randomised readiness/cancellation orders.',
- 'C16': 'Deciding step: step machine against a reference for every pre-cancelled subset and cancellation order (complete for n<=3), plus simultaneous cancellations with the hook window held.',
+ 'C16': 'Deciding step: step machine against a reference for every pre-cancelled subset and cancellation order (complete for n<=3), plus simultaneous cancellations with the hook window held, and cancellations placed inside the constructors through pass-through Context probes (k-th Err/Done consultation of an input cancels another).',
  'C17': 'Deciding step: offline interval checker over stamps taken before/after each observation, so that every reported order is sound under arbitrary delays.',
  'C18': 'Deciding step: lock-step reference loop on completely enumerated scripts with the delays observed through the retry hooks.',
  'C19': 'Deciding step: differential testing of generated signatures, arguments and targets against an independent well-typedness reference, incl. a completely enumerated small family.',
@@ -43,7 +43,7 @@ TECH = {
  'C13': 'porcupine linearizability vs sequential Channel model + conservation + Close-vs-Get micro-trials',
  'C14': 'online running/max counters, exactly-once result ids, bounded progress and bounded bypass (sustained arrivals), VerifState invariant sampling',
  'C15': 'receipt table per publish vs independent eligibility reference (Go assignability), permuted readiness/cancel orders',
- 'C16': 'step-machine reference over cancellation orders (enumerated n<=3) + simultaneous-cancel stress with hook gate',
+ 'C16': 'step-machine reference over cancellation orders (enumerated n<=3) + simultaneous-cancel stress with hook gate + client-side probes inside the constructors',
  'C17': 'offline interval/order checker over stamped Do/done/stop/exit events, directed last-done-vs-Do races',
  'C18': 'lock-step reference loop on scripted outcomes with observed delays (VerifRetryObserve), cancellation at every point',
  'C19': 'differential testing of generated signatures/arguments/targets against an independent well-typedness reference (random + bounded-exhaustive)',
